@@ -174,6 +174,18 @@ def gen_rhs(rng, w, t, tc, shape, scalar):
         if rng.random() < 0.12:
             return gen_dense(rng, 1, 1, vt)         # a 1x1 dense matrix is a scalar for every index kind
         return gen_dense(rng, m, n, vt)
+    if rng.random() < 0.5 and m * n > 1:
+        # same number of elements, another shape (a k x 1 column for an r x c block, the transpose shape, ...):
+        # must be refused and must leave the right-hand side object alone
+        cands = [k for k in w.sorted_names() if w.o(k)['M'].m * w.o(k)['M'].n == m * n and w.o(k)['M'].size != shape
+                 and w.names[k] != w.names[t]]
+        if cands:
+            return {'k': 'ref', 'name': rng.choice(cands)}
+        alt = [(m * n, 1), (1, m * n), (n, m)]
+        alt = [a for a in alt if a != (m, n) and a != (1, 1)]
+        if alt:
+            a = rng.choice(alt)
+            return gen_dense(rng, a[0], a[1], vt)
     cands = [k for k in w.sorted_names() if w.o(k)['M'].size == shape and w.names[k] != w.names[t]]
     if cands:
         return {'k': 'ref', 'name': rng.choice(cands)}
